@@ -166,6 +166,32 @@ pub fn run(ctx: &Ctx) -> Report {
             }
         }
     }
+    // (1c) cross product of the dimensions the families above vary one at a time: class x method x
+    // credentials x sealing x fingerprint x two bodies, by the real builder ("light": original, bit
+    // flips of the type / length field and of the integrity attributes, alternative HMAC values and keys)
+    for class in 0..4u8 {
+        for method in [0u16, 1, 0x0FFF] {
+            for (ci, c) in creds.iter().enumerate() {
+                for seal in [vec![Op::Sha1(ci as u8)], vec![Op::Sha256(ci as u8)], vec![Op::Sha1(ci as u8), Op::Sha256(ci as u8)]] {
+                    for with_fp in [false, true] {
+                        for body in [0usize, 3, 7] {
+                            let mut ops = bodies()[body].clone();
+                            ops.extend(seal.clone());
+                            if with_fp {
+                                ops.push(Op::Fp);
+                            }
+                            let p = Prog { class, method, tid: tid ^ ((class as u128) << 90), ops };
+                            if let Ok(b) = crate::props::c03::build_prog(&p) {
+                                if b.results.iter().all(|r| r.is_ok()) {
+                                    sealed.push((b.bytes, c.clone(), format!("cross class{class} method{method:#x} body{body} fp={with_fp}")));
+                                }
+                            }
+                        }
+                    }
+                }
+            }
+        }
+    }
     // (2) by the reference serialiser: truncated SHA-256 values and orders the builder refuses
     let mut ref_sealed: Vec<(Vec<u8>, Creds, String)> = Vec::new();
     for c in creds.iter().take(2) {
@@ -287,7 +313,12 @@ pub fn run(ctx: &Ctx) -> Report {
                 Some(b2)
             };
             // (3) single-bit flips and all byte substitutions
+            let light = desc.starts_with("cross ");
+            let in_integrity = |pos: usize| m.attrs.iter().any(|a| wire::is_integrity(a.typ) && pos >= a.offset && pos < a.end());
             for pos in 0..end {
+                if light && !(pos < 4 || in_integrity(pos)) {
+                    continue;
+                }
                 for bit in 0..8 {
                     let mut b = buf.clone();
                     b[pos] ^= 1 << bit;
@@ -297,7 +328,7 @@ pub fn run(ctx: &Ctx) -> Report {
                             judge_guarded(judge, &Case::new("validate", b).text(&[&ct, "bitflip"]), &mut acc);
                 }
                 for v in 0..=255u8 {
-                    if v == buf[pos] || (v ^ buf[pos]).count_ones() == 1 {
+                    if light || v == buf[pos] || (v ^ buf[pos]).count_ones() == 1 {
                         continue;
                     }
                     let mut b = buf.clone();
@@ -397,7 +428,7 @@ pub fn run(ctx: &Ctx) -> Report {
     Report {
         acc,
         exhaustive: true,
-        rule: "8 bodies x fingerprint yes/no x 8 credentials x {SHA-1, SHA-256, both} sealed by the real builder (build(), and write_into() a used buffer before / after into_owned()); reference-serialised messages with SHA-256 truncated to 12..36 bytes, MI256-before-MI order and mixed correctness; on each: every single-bit flip and every byte value at every position from offset 0 through the end of the last integrity attribute, plausible alternative HMAC values in each integrity attribute (other length fields, other ranges, the other hash), every corrupted buffer of a fingerprinted message also with its FINGERPRINT recomputed, up to 25 near-miss keys (case, trailing space / NUL, prefixes of 16/20/32/63/64/65/128 bytes, other credential kind, swapped parts); decorated credentials (quotes, blanks, trailing dot, mixed case, non-ASCII in each part) with their cleaned forms as alternative keys; key-length sweep: short-term passwords of every length 0..=140 and long-term credentials with parts of 0..200 bytes x {SHA-1, SHA-256, both} x {builder, reference serialiser}; unsealed bodies x 8 credentials; distinct_nontrivial = sealed buffers".into(),
+        rule: "8 bodies x fingerprint yes/no x 8 credentials x {SHA-1, SHA-256, both} sealed by the real builder (plus the cross product 4 classes x 3 methods x 8 credentials x 3 sealings x fingerprint x 3 bodies with a reduced fault set: bit flips of the type / length field and of the integrity attributes, alternative HMAC values and keys) (build(), and write_into() a used buffer before / after into_owned()); reference-serialised messages with SHA-256 truncated to 12..36 bytes, MI256-before-MI order and mixed correctness; on each: every single-bit flip and every byte value at every position from offset 0 through the end of the last integrity attribute, plausible alternative HMAC values in each integrity attribute (other length fields, other ranges, the other hash), every corrupted buffer of a fingerprinted message also with its FINGERPRINT recomputed, up to 25 near-miss keys (case, trailing space / NUL, prefixes of 16/20/32/63/64/65/128 bytes, other credential kind, swapped parts); decorated credentials (quotes, blanks, trailing dot, mixed case, non-ASCII in each part) with their cleaned forms as alternative keys; key-length sweep: short-term passwords of every length 0..=140 and long-term credentials with parts of 0..200 bytes x {SHA-1, SHA-256, both} x {builder, reference serialiser}; unsealed bodies x 8 credentials; distinct_nontrivial = sealed buffers".into(),
         bounds: json!({"sealed_buffers": n_sealed, "unsealed": unsealed.len(), "faults": if thorough { "single bit, all byte values, length-bit x any-bit pairs" } else { "single bit, all byte values" }}),
         assumptions: vec!["HMAC-SHA1/SHA-256 collision resistance (no forgery that needs to break the MAC is explored)".into(), "keys outside the alternative-key alphabet are not explored".into()],
         ..Default::default()
